@@ -534,7 +534,9 @@ def main(argv):
     trusted = list(getattr(mod, 'TRUSTED', []))
     trusted += ['external (assumed contract): ' + c for c in sorted(trusted_calls)]
     trusted += ['dropped by extraction: ' + d for d in sorted(dropped)]
-    trusted += ['dead branch (platform-resolved): ' + d for d in sorted(dead)][:40]
+    trusted += ['extraction (exec template instantiated from the real source): ' + d[len('(not dead: exec template) '):]
+                for d in sorted(dead) if d.startswith('(not dead: exec template) ')]
+    trusted += ['dead branch (platform-resolved): ' + d for d in sorted(dead) if not d.startswith('(not dead')][:40]
     trusted += ['encoding: Python int -> SMT Int (exact); float -> SMT Real (IEEE rounding not modelled)',
                 'encoding: heap as per-field arrays indexed by object id; containers as (len|has, items|val) maps',
                 'encoding: built-ins and container methods per pyvc/builtins_impl.py; truthiness/and/or/None per pyvc/evalexpr.py',
